@@ -116,10 +116,13 @@ class C02(PropBase):
         for (b, tag) in accepted[: 60 if tier == "quick" else 600]:
             digits = "".join(chr(c) for c in b if chr(c) in "0123456789abcdefABCDEF").upper()
             for (u, r) in ((False, False), (True, True)):
+                # .. and the same line as the last line of a file that does not end in a line feed (case c: plain, case d: decorated)
                 ops = ["reset", gen.cfg_op(use_update=u, relaxed=r), "case a"] + gen.seg([b]) + ["dump", "reset",
-                       gen.cfg_op(use_update=u, relaxed=r), "case b"] + gen.seg([digits]) + ["dump"]
+                       gen.cfg_op(use_update=u, relaxed=r), "case b"] + gen.seg([digits]) + ["dump", "reset",
+                       gen.cfg_op(use_update=u, relaxed=r), "case c"] + gen.seg([digits], nolf=True) + ["dump", "reset",
+                       gen.cfg_op(use_update=u, relaxed=r), "case d"] + gen.seg([b], nolf=True) + ["dump"]
                 impl, _, model = run.execute(ops, model=driver_ok)
-                rep.evaluations += 2
+                rep.evaluations += 4
                 rep.traces += 1
                 self.corr(rep, impl, model, f"decorated line {b[:60]!r}", ops)
                 ci = core.split_cases(impl)
@@ -127,6 +130,11 @@ class C02(PropBase):
                     self.fail(rep, f"decoration changes the result of processing: {b[:80]!r} vs {digits}",
                               {"ops": ops, "decorated_hex": b.hex(), "plain": digits})
                     return
+                for tag2 in ("c", "d"):
+                    if [l for l in ci.get(tag2, []) if not l.startswith("seg")] != [l for l in ci.get("b", []) if not l.startswith("seg")]:
+                        self.fail(rep, f"a frame on the last line of a file without a final line feed is processed differently: "
+                                       f"{(digits if tag2 == 'c' else b[:80])!r}", {"ops": ops, "decorated_hex": b.hex(), "plain": digits})
+                        return
                 rep.nontriv(("table", b.hex(), u))
         # rejected lines leave a populated table untouched
         rejected = [b for (b, t), il in zip(lines, im) if il == "msg -"]
@@ -153,6 +161,25 @@ class C02(PropBase):
                 lo = lo[len(lo) // 2:] if same else half
             self.fail(rep, f"a line that is not a frame changed the table: {lo[0][:80]!r}",
                       {"ops": ["reset"] + gen.seg(base) + ["adv 61500", "dump"] + gen.seg(lo) + ["dump"], "line_hex": lo[0].hex()})
+
+        # .. and a line that is not a frame stays one when it is the unterminated last line of a file (a digit too many must not
+        # become a frame by losing its last character)
+        odd = [b for b in rejected if sum(1 for c in b if chr(c) in "0123456789abcdefABCDEF") in (15, 27, 29, 41)]
+        pick = odd[:30] + rejected[:30]
+        ops = ["reset"] + gen.seg(base) + ["adv 61500", "case base", "dump"]
+        for k, b in enumerate(pick):
+            ops += ["reset"] + gen.seg(base) + ["adv 61500", f"case n{k}"] + gen.seg([b], nolf=True) + ["dump"]
+        impl, _, model = run.execute(ops, model=driver_ok)
+        rep.evaluations += len(pick)
+        self.corr(rep, impl, model, "rejected lines as unterminated last line", None)
+        ci = core.split_cases(impl)
+        want = sorted(gen.parse_dump(ci.get("base", [])))
+        for k, b in enumerate(pick):
+            got = sorted(gen.parse_dump(ci.get(f"n{k}", [])))
+            if got != want:
+                self.fail(rep, f"a line that is not a frame changed the table when it was the last line of a file without a final line feed: {b[:80]!r}",
+                          {"ops": ["reset"] + gen.seg(base) + ["adv 61500"] + gen.seg([b], nolf=True) + ["dump"], "line_hex": b.hex()})
+                return
 
     def judge_replay(self, rep, obj, impl, so, model):
         super().judge_replay(rep, obj, impl, so, model)
